@@ -44,6 +44,13 @@ def res(v, den=None):
         if abs(v) > LIM:
             return {"t": "big", "s": 1 if v > 0 else -1}
         return {"t": "i", "v": v}
+    if den == "ang" and isinstance(v, (int, float)) and not isinstance(v, bool):
+        x = float(v)
+        if math.isnan(x) or math.isinf(x) or abs(x) > 1e6:
+            return {"t": "nan"}
+        n = round(x * 128)
+        return {"t": "ang", "n": n, "x": 1 if abs(x * 128 - n) < 1e-6 else 0, "md": math.floor(x * 1000),
+                "S": round(32768 * math.sin(math.radians(x))), "C": round(32768 * math.cos(math.radians(x)))}
     if isinstance(v, float):
         d = den if isinstance(den, int) else 1
         if math.isnan(v) or math.isinf(v):
@@ -56,11 +63,13 @@ def res(v, den=None):
         # integral floats with den 1 are reported as rationals too ("q"), TLC compares n*D = N*d
         return {"t": "q", "n": n, "d": d, "x": 1 if exact else 0}
     if isinstance(v, str):
-        return {"t": "s", "v": text(v)}
+        # "w": the same text as a JSON string (TLC compares labels as strings, indexes "v" for characters)
+        w = v if len(v) <= 60 and all(32 <= ord(c) < 127 and c not in '"\\' for c in v) else "?"
+        return {"t": "s", "v": text(v), "w": w}
     if isinstance(v, (tuple, list)):
         out = []
         for k, x in enumerate(v):
-            dk = den[k] if isinstance(den, (list, tuple)) and k < len(den) else (den if isinstance(den, int) else None)
+            dk = den[k] if isinstance(den, (list, tuple)) and k < len(den) else (den if isinstance(den, (int, str)) else None)
             out.append(res(x, dk))
         return {"t": "tup", "v": out}
     return {"t": "o", "v": text(type(v).__name__)}
